@@ -147,7 +147,7 @@ func runC18(w *World, r *Report, tier string) {
 		nNil := 0
 		walkPaths(after(wc), nil, nil, 2000, func(path []ssa.Instruction, end pathEnd) {
 			ret, ok := path[len(path)-1].(*ssa.Return)
-			if !ok || !isNilConst(ret.Results[0]) {
+			if !ok || !isNilConst(rres(path, ret)[0]) {
 				return
 			}
 			nNil++
@@ -215,7 +215,7 @@ func runC18(w *World, r *Report, tier string) {
 			if !ok {
 				return
 			}
-			res := ret.Results[len(ret.Results)-1]
+			res := rres(path, ret)[len(ret.Results)-1]
 			if pathAsserts(path, func(c ssa.Value, truth bool) bool { return assertsNonNil(c, truth, res) }) {
 				return
 			}
